@@ -123,6 +123,17 @@ func gramCases(j run.Job, yield func(c GCase)) {
 				yield(GCase{G: g, In: in, NT: nt, Fam: "mutual-lr"})
 			}
 		}
+	case "layered":
+		r := rand.New(rand.NewSource(j.Seed))
+		inputs := j.Param("inputs", 6)
+		for gi := 0; gi < j.N; gi++ {
+			g := gram.LayeredLR(r)
+			for ii := 0; ii < inputs; ii++ {
+				nt := 1 + r.Intn(len(g.NTs)-1)
+				in := g.RandomInput(r, nt, 8, 80)
+				yield(GCase{G: g, In: in, NT: nt, Fam: "layered-lr"})
+			}
+		}
 	case "enum":
 		nodes := j.Param("nodes", 3)
 		shapes := gram.Shapes(nodes, j.Param("ext", 0) == 1)
